@@ -147,4 +147,10 @@ CHECKS = {
             dict(name="fold", run="^TestPropFold$", checks=(500, 5000), shards=(4, 16), shrinktime="20s"),
         ],
     ),
+    "C16": dict(
+        pkg="./c16", level="exploration",
+        runs=[
+            dict(name="race", run="^TestPropRaces$", race=True, checks=(40, 600), shards=(8, 16), shrinktime="1s"),
+        ],
+    ),
 }
